@@ -1,13 +1,837 @@
 package main
 
+// Replay: turn the solver's model of a failed obligation into a Go test that
+// calls the REAL function in /repo (injected with `go test -overlay`, nothing
+// is written into /repo) and checks the violated clause / recovers the panic.
+
+import (
+	"bytes"
+	"context"
+	"encoding/json"
+	"fmt"
+	"go/types"
+	"math/big"
+	"os"
+	"os/exec"
+	"path/filepath"
+	"sort"
+	"strconv"
+	"strings"
+	"time"
+
+	"golang.org/x/tools/go/ssa"
+)
+
 type ReplayResult struct {
 	Confirmed bool
 	Cmd       string
 	TestSrc   string
 	Output    string
+	Why       string
 }
 
-// Replay turns the solver's model into a Go test against the real code.
+// ---------------------------------------------------------------------------
+// model variables: expansion of the entry state by type
+
+const replayMaxElems = 12
+
+func (st *State) modelVars() []ModelVar {
+	var mv []ModelVar
+	seen := map[string]bool{}
+	add := func(name, term string, s Sort) {
+		if term == "" || seen[name] {
+			return
+		}
+		seen[name] = true
+		mv = append(mv, ModelVar{Name: name, Term: term, Sort: s})
+	}
+	var expand func(name string, v Value, depth int)
+	expand = func(name string, v Value, depth int) {
+		if v.Term == "" || v.T == nil || depth > 5 {
+			return
+		}
+		te := st.eng.te
+		switch u := v.T.Underlying().(type) {
+		case *types.Basic:
+			add(name, v.Term, v.S)
+			if v.S == SStr {
+				add(name+"#len", app("slen", v.Term), BV(64))
+			}
+		case *types.Struct:
+			for i := 0; i < u.NumFields(); i++ {
+				ft := u.Field(i).Type()
+				expand(name+"."+u.Field(i).Name(), Value{T: ft, S: te.SortOf(ft), Term: te.StructGet(v.S, i, v.Term)}, depth+1)
+			}
+		case *types.Pointer:
+			add(name, v.Term, SRef)
+			if depth >= 4 {
+				return
+			}
+			pv := st.loadH(st.oldHeap, v.Term, u.Elem())
+			expand(name+"->", pv, depth+1)
+		case *types.Slice:
+			add(name+"#ref", app("s_ref", v.Term), SRef)
+			add(name+"#len", app("s_len", v.Term), BV(64))
+			if depth >= 4 {
+				return
+			}
+			n := replayMaxElems
+			if _, isByte := u.Elem().Underlying().(*types.Basic); !isByte {
+				n = 4
+			}
+			for k := 0; k < n; k++ {
+				addr := elemAddr(app("s_ref", v.Term), app("bvadd", app("s_off", v.Term), bvInt(int64(k), 64)))
+				ev := st.loadH(st.oldHeap, addr, u.Elem())
+				expand(fmt.Sprintf("%s[%d]", name, k), ev, depth+1)
+			}
+		case *types.Map:
+			add(name, v.Term, SRef)
+		case *types.Interface:
+			add(name+"#tag", app("i_tag", v.Term), SInt)
+			add(name+"#iref", app("i_ref", v.Term), SRef)
+		case *types.Array:
+			n := int(u.Len())
+			if n > replayMaxElems {
+				n = replayMaxElems
+			}
+			for k := 0; k < n; k++ {
+				et := u.Elem()
+				expand(fmt.Sprintf("%s[%d]", name, k), Value{T: et, S: te.SortOf(et), Term: app("select", v.Term, bvInt(int64(k), 64))}, depth+1)
+			}
+		case *types.Signature, *types.Chan:
+			add(name, v.Term, SRef)
+		}
+	}
+	for _, k := range sortedKeys(st.entryVars) {
+		expand(k, st.entryVars[k], 0)
+	}
+	return mv
+}
+
+// ---------------------------------------------------------------------------
+// s-expression parsing of (get-value ...) output
+
+type sx struct {
+	atom string
+	list []*sx
+}
+
+func parseSx(s string) []*sx {
+	var out []*sx
+	pos := 0
+	var parse func() *sx
+	skip := func() {
+		for pos < len(s) && (s[pos] == ' ' || s[pos] == '\n' || s[pos] == '\t' || s[pos] == '\r') {
+			pos++
+		}
+	}
+	parse = func() *sx {
+		skip()
+		if pos >= len(s) {
+			return nil
+		}
+		if s[pos] == '(' {
+			pos++
+			n := &sx{list: []*sx{}}
+			for {
+				skip()
+				if pos >= len(s) {
+					return n
+				}
+				if s[pos] == ')' {
+					pos++
+					return n
+				}
+				c := parse()
+				if c == nil {
+					return n
+				}
+				n.list = append(n.list, c)
+			}
+		}
+		start := pos
+		if s[pos] == '|' {
+			pos++
+			for pos < len(s) && s[pos] != '|' {
+				pos++
+			}
+			pos++
+			return &sx{atom: s[start:pos]}
+		}
+		if s[pos] == '"' {
+			pos++
+			for pos < len(s) && s[pos] != '"' {
+				pos++
+			}
+			pos++
+			return &sx{atom: s[start:pos]}
+		}
+		for pos < len(s) && !strings.ContainsRune(" \n\t\r()", rune(s[pos])) {
+			pos++
+		}
+		return &sx{atom: s[start:pos]}
+	}
+	for {
+		skip()
+		if pos >= len(s) {
+			break
+		}
+		n := parse()
+		if n == nil {
+			break
+		}
+		out = append(out, n)
+	}
+	return out
+}
+
+func (n *sx) String() string {
+	if n.list == nil {
+		return n.atom
+	}
+	var ps []string
+	for _, c := range n.list {
+		ps = append(ps, c.String())
+	}
+	return "(" + strings.Join(ps, " ") + ")"
+}
+
+// bvValue parses #x.. / #b.. / (_ bvN w)
+func bvValue(n *sx) (*big.Int, bool) {
+	if n.list == nil {
+		a := n.atom
+		if strings.HasPrefix(a, "#x") {
+			v, ok := new(big.Int).SetString(a[2:], 16)
+			return v, ok
+		}
+		if strings.HasPrefix(a, "#b") {
+			v, ok := new(big.Int).SetString(a[2:], 2)
+			return v, ok
+		}
+		return nil, false
+	}
+	if len(n.list) == 3 && n.list[0].atom == "_" && strings.HasPrefix(n.list[1].atom, "bv") {
+		v, ok := new(big.Int).SetString(n.list[1].atom[2:], 10)
+		return v, ok
+	}
+	return nil, false
+}
+
+func intValue(n *sx) (int64, bool) {
+	if n.list == nil {
+		v, err := strconv.ParseInt(n.atom, 10, 64)
+		return v, err == nil
+	}
+	if len(n.list) == 2 && n.list[0].atom == "-" {
+		v, ok := intValue(n.list[1])
+		return -v, ok
+	}
+	return 0, false
+}
+
+// ---------------------------------------------------------------------------
+
+type model struct {
+	vals map[string]*sx
+}
+
+func parseModel(vc *VC) *model {
+	out := vc.Model
+	i := strings.Index(out, "\n")
+	if i < 0 {
+		return nil
+	}
+	nodes := parseSx(out[i+1:])
+	if len(nodes) == 0 || nodes[0].list == nil {
+		return nil
+	}
+	m := &model{vals: map[string]*sx{}}
+	pairs := nodes[0].list
+	for k, p := range pairs {
+		if k >= len(vc.ModelVars) || len(p.list) != 2 {
+			break
+		}
+		m.vals[vc.ModelVars[k].Name] = p.list[1]
+	}
+	return m
+}
+
+type goBuilder struct {
+	eng     *Engine
+	m       *model
+	pkg     *types.Package
+	imports map[string]string // path -> name
+	pre     []string          // statements
+	objs    map[string]string // ref value string -> go variable
+	n       int
+	fail    string
+	strs    map[string]string
+}
+
+func (g *goBuilder) qual(p *types.Package) string {
+	if p == g.pkg {
+		return ""
+	}
+	if n, ok := g.imports[p.Path()]; ok {
+		return n
+	}
+	name := p.Name()
+	for _, v := range g.imports {
+		if v == name {
+			name = fmt.Sprintf("%s%d", p.Name(), len(g.imports))
+		}
+	}
+	g.imports[p.Path()] = name
+	return name
+}
+
+func (g *goBuilder) typeStr(T types.Type) string {
+	return types.TypeString(T, g.qual)
+}
+
+func (g *goBuilder) accessible(f *types.Var) bool {
+	return f.Exported() || f.Pkg() == g.pkg
+}
+
+func (g *goBuilder) isNil(n *sx) bool {
+	return n != nil && n.String() == "(mkref 0)"
+}
+
+// value builds a Go expression for the model value at path `name` of type T.
+func (g *goBuilder) value(name string, T types.Type, depth int) string {
+	zero := func() string { return "*new(" + g.typeStr(T) + ")" }
+	if depth > 6 {
+		return zero()
+	}
+	switch u := T.Underlying().(type) {
+	case *types.Basic:
+		n := g.m.vals[name]
+		if n == nil {
+			return zero()
+		}
+		switch {
+		case u.Info()&types.IsBoolean != 0:
+			return g.typeStr(T) + "(" + n.String() + ")"
+		case u.Info()&types.IsInteger != 0:
+			v, ok := bvValue(n)
+			if !ok {
+				return zero()
+			}
+			bits := intBits(u)
+			if u.Info()&types.IsUnsigned == 0 {
+				// signed interpretation
+				if v.Bit(bits-1) == 1 {
+					v = new(big.Int).Sub(v, new(big.Int).Lsh(big.NewInt(1), uint(bits)))
+				}
+			}
+			return g.typeStr(T) + "(" + v.String() + ")"
+		case u.Info()&types.IsString != 0:
+			// uninterpreted sort: pick a string of the model's length, distinct per model value
+			ln := int64(0)
+			if l := g.m.vals[name+"#len"]; l != nil {
+				if v, ok := bvValue(l); ok && v.IsInt64() {
+					ln = v.Int64()
+				}
+			}
+			if ln > 64 {
+				ln = 64
+			}
+			key := n.String()
+			if s, ok := g.strs[key]; ok {
+				return g.typeStr(T) + "(" + strconv.Quote(s) + ")"
+			}
+			if lit, ok := g.strLitOf(key); ok {
+				return g.typeStr(T) + "(" + strconv.Quote(lit) + ")"
+			}
+			s := strings.Repeat(string(rune('a'+len(g.strs)%26)), int(ln))
+			g.strs[key] = s
+			return g.typeStr(T) + "(" + strconv.Quote(s) + ")"
+		}
+		return zero()
+	case *types.Struct:
+		var fs []string
+		for i := 0; i < u.NumFields(); i++ {
+			f := u.Field(i)
+			if !g.accessible(f) {
+				continue
+			}
+			fs = append(fs, f.Name()+": "+g.value(name+"."+f.Name(), f.Type(), depth+1))
+		}
+		return g.typeStr(T) + "{" + strings.Join(fs, ", ") + "}"
+	case *types.Pointer:
+		n := g.m.vals[name]
+		if n == nil || g.isNil(n) {
+			return "nil"
+		}
+		key := g.typeStr(T) + "@" + n.String()
+		if v, ok := g.objs[key]; ok {
+			return v
+		}
+		g.n++
+		v := fmt.Sprintf("o%d", g.n)
+		g.objs[key] = v
+		g.pre = append(g.pre, fmt.Sprintf("%s := new(%s)", v, g.typeStr(u.Elem())))
+		if stt, ok := u.Elem().Underlying().(*types.Struct); ok {
+			for i := 0; i < stt.NumFields(); i++ {
+				f := stt.Field(i)
+				if !g.accessible(f) || isSyncType(f.Type()) {
+					continue
+				}
+				g.pre = append(g.pre, fmt.Sprintf("%s.%s = %s", v, f.Name(), g.value(name+"->."+f.Name(), f.Type(), depth+1)))
+			}
+		} else {
+			g.pre = append(g.pre, fmt.Sprintf("*%s = %s", v, g.value(name+"->", u.Elem(), depth+1)))
+		}
+		return v
+	case *types.Slice:
+		ref := g.m.vals[name+"#ref"]
+		if ref == nil || g.isNil(ref) {
+			return "nil"
+		}
+		ln := int64(0)
+		if l := g.m.vals[name+"#len"]; l != nil {
+			if v, ok := bvValue(l); ok {
+				if !v.IsInt64() || v.Int64() > 1<<16 {
+					g.fail = fmt.Sprintf("model needs a slice of length %s for %s", v.String(), name)
+					return "nil"
+				}
+				ln = v.Int64()
+			}
+		}
+		var es []string
+		for k := int64(0); k < ln; k++ {
+			en := fmt.Sprintf("%s[%d]", name, k)
+			if _, has := g.m.vals[en]; has || k < 4 {
+				es = append(es, g.value(en, u.Elem(), depth+1))
+			} else {
+				es = append(es, "*new("+g.typeStr(u.Elem())+")")
+			}
+		}
+		return g.typeStr(T) + "{" + strings.Join(es, ", ") + "}"
+	case *types.Map:
+		n := g.m.vals[name]
+		if n == nil || g.isNil(n) {
+			return "nil"
+		}
+		return "make(" + g.typeStr(T) + ")"
+	case *types.Interface:
+		tag := g.m.vals[name+"#tag"]
+		if tag == nil {
+			return "nil"
+		}
+		id, _ := intValue(tag)
+		if id == 0 {
+			return "nil"
+		}
+		if impl := replayIfaceImpl(g, T); impl != "" {
+			return impl
+		}
+		g.eng.te.mu.Lock()
+		dt := g.eng.te.typeByID[int(id)]
+		g.eng.te.mu.Unlock()
+		if dt != nil && types.AssignableTo(dt, T) {
+			if p, ok := dt.Underlying().(*types.Pointer); ok {
+				return "new(" + g.typeStr(p.Elem()) + ")"
+			}
+			return "*new(" + g.typeStr(dt) + ")"
+		}
+		if named, ok := T.(*types.Named); ok && named.Obj().Name() == "error" {
+			g.qualPath("errors")
+			return `errors.New("replay")`
+		}
+		g.fail = "no implementation known for interface " + g.typeStr(T)
+		return "nil"
+	case *types.Array:
+		var es []string
+		for k := int64(0); k < u.Len(); k++ {
+			en := fmt.Sprintf("%s[%d]", name, k)
+			if _, has := g.m.vals[en]; has {
+				es = append(es, g.value(en, u.Elem(), depth+1))
+			} else {
+				es = append(es, "*new("+g.typeStr(u.Elem())+")")
+			}
+		}
+		return g.typeStr(T) + "{" + strings.Join(es, ", ") + "}"
+	case *types.Signature:
+		return "nil"
+	}
+	return zero()
+}
+
+func (g *goBuilder) qualPath(path string) {
+	if _, ok := g.imports[path]; !ok {
+		g.imports[path] = filepath.Base(path)
+	}
+}
+
+func (g *goBuilder) strLitOf(modelVal string) (string, bool) {
+	return "", false
+}
+
+func isSyncType(T types.Type) bool {
+	s := typeStr(T)
+	return strings.HasPrefix(s, "sync.") || strings.HasPrefix(s, "sync/atomic.")
+}
+
+// replayIfaceImpl: default implementations for interfaces the model cannot construct.
+func replayIfaceImpl(g *goBuilder, T types.Type) string {
+	switch typeStr(T) {
+	case modPath + "/crypto/hashing.Hasher":
+		for _, p := range g.eng.prog.Pkgs {
+			if p.PkgPath == modPath+"/crypto/hashing" {
+				q := g.qual(p.Types)
+				if q == "" {
+					return "NewSha256Hasher()"
+				}
+				return q + ".NewSha256Hasher()"
+			}
+		}
+	}
+	return ""
+}
+
+// ---------------------------------------------------------------------------
+// spec -> Go (subset) for post-condition replay
+
+type goSpec struct {
+	g      *goBuilder
+	params map[string]string // spec name -> go variable
+	nres   int
+	olds   []string // statements before the call
+	nold   int
+	ok     bool
+}
+
+func (s *goSpec) expr(e *SExpr) string {
+	switch e.Kind {
+	case KInt:
+		return e.Name
+	case KStr:
+		return strconv.Quote(e.Name)
+	case KIdent:
+		switch e.Name {
+		case "true", "false", "nil":
+			return e.Name
+		case "result":
+			if s.nres == 1 {
+				return "res0"
+			}
+		}
+		if strings.HasPrefix(e.Name, "result_") {
+			return "res" + strings.TrimPrefix(e.Name, "result_")
+		}
+		if v, ok := s.params[e.Name]; ok {
+			return v
+		}
+		return e.Name // package-level identifier
+	case KUnary:
+		return "(" + e.Op + s.expr(e.Args[0]) + ")"
+	case KBinary:
+		a, b := s.expr(e.Args[0]), s.expr(e.Args[1])
+		switch e.Op {
+		case "==>":
+			return "(!(" + a + ") || (" + b + "))"
+		case "<==>":
+			return "((" + a + ") == (" + b + "))"
+		}
+		if e.Op == "==" || e.Op == "!=" {
+			if isBytesCall(e.Args[0]) && isBytesCall(e.Args[1]) {
+				s.g.qualPath("bytes")
+				r := "bytes.Equal(" + s.bytesArg(e.Args[0]) + ", " + s.bytesArg(e.Args[1]) + ")"
+				if e.Op == "!=" {
+					r = "!" + r
+				}
+				return r
+			}
+		}
+		return "(" + a + " " + e.Op + " " + b + ")"
+	case KSel:
+		return s.expr(e.Args[0]) + "." + e.Name
+	case KIndex:
+		return s.expr(e.Args[0]) + "[" + s.expr(e.Args[1]) + "]"
+	case KSlice:
+		lo, hi := "", ""
+		if e.Args[1] != nil {
+			lo = s.expr(e.Args[1])
+		}
+		if e.Args[2] != nil {
+			hi = s.expr(e.Args[2])
+		}
+		return s.expr(e.Args[0]) + "[" + lo + ":" + hi + "]"
+	case KCall:
+		if f := e.Args[0]; f.Kind == KIdent {
+			switch f.Name {
+			case "len", "cap", "uint64", "int", "uint16", "uint8", "int64", "uint32", "byte":
+				return f.Name + "(" + s.expr(e.Args[1]) + ")"
+			case "old":
+				s.nold++
+				v := fmt.Sprintf("old%d", s.nold)
+				s.olds = append(s.olds, v+" := "+s.expr(e.Args[1]))
+				return v
+			case "isnil":
+				return "(" + s.expr(e.Args[1]) + " == nil)"
+			case "fresh":
+				return "true"
+			}
+		}
+	}
+	s.ok = false
+	return "true"
+}
+
+func isBytesCall(e *SExpr) bool {
+	if e.Kind != KCall || e.Args[0].Kind != KIdent {
+		return false
+	}
+	switch e.Args[0].Name {
+	case "bytes", "be64", "be16":
+		return true
+	}
+	return false
+}
+
+func (s *goSpec) bytesArg(e *SExpr) string {
+	switch e.Args[0].Name {
+	case "bytes":
+		return "[]byte(" + s.expr(e.Args[1]) + ")"
+	case "be64":
+		s.g.qualPath("encoding/binary")
+		return "binary.BigEndian.AppendUint64(nil, uint64(" + s.expr(e.Args[1]) + "))"
+	case "be16":
+		s.g.qualPath("encoding/binary")
+		return "binary.BigEndian.AppendUint16(nil, uint16(" + s.expr(e.Args[1]) + "))"
+	}
+	s.ok = false
+	return "nil"
+}
+
+// ---------------------------------------------------------------------------
+
+func findFuncByKey(eng *Engine, key string) (*ssa.Function, *Contract) {
+	for fn, c := range eng.fnContract {
+		if fnKey(fn) == key {
+			return fn, c
+		}
+	}
+	return nil, nil
+}
+
+// Replay builds and runs the test. Returns nil when no replay is possible.
 func Replay(eng *Engine, vc *VC, cfg checkCfg, scratch string) *ReplayResult {
-	return nil
+	fn, c := findFuncByKey(eng, vc.Func)
+	if fn == nil {
+		return nil
+	}
+	if fn.Parent() != nil {
+		return &ReplayResult{Why: "closures cannot be called from a test"}
+	}
+	if fn.Pkg == nil {
+		return nil
+	}
+	m := parseModel(vc)
+	if m == nil {
+		return &ReplayResult{Why: "no model in solver output"}
+	}
+	if rr := replayWithDriver(eng, vc, m, cfg, scratch, fn); rr != nil {
+		return rr
+	}
+	g := &goBuilder{eng: eng, m: m, pkg: fn.Pkg.Pkg, imports: map[string]string{"fmt": "fmt", "testing": "testing"}, objs: map[string]string{}, strs: map[string]string{}}
+	var argVars []string
+	params := map[string]string{}
+	for i, p := range fn.Params {
+		v := fmt.Sprintf("a%d", i)
+		expr := g.value(p.Name(), p.Type(), 0)
+		g.pre = append(g.pre, fmt.Sprintf("var %s %s = %s", v, g.typeStr(p.Type()), expr))
+		g.pre = append(g.pre, "_ = "+v)
+		argVars = append(argVars, v)
+		params[p.Name()] = v
+	}
+	if g.fail != "" {
+		return &ReplayResult{Why: g.fail}
+	}
+	var call string
+	nres := fn.Signature.Results().Len()
+	if fn.Signature.Recv() != nil {
+		params["self"] = argVars[0]
+		call = fmt.Sprintf("%s.%s(%s)", argVars[0], fn.Name(), strings.Join(argVars[1:], ", "))
+	} else {
+		call = fmt.Sprintf("%s(%s)", fn.Name(), strings.Join(argVars, ", "))
+	}
+	var resVars []string
+	for i := 0; i < nres; i++ {
+		resVars = append(resVars, fmt.Sprintf("res%d", i))
+	}
+	var body []string
+	check := ""
+	switch vc.Kind {
+	case "panic", "pre":
+		// confirmed iff the real call panics
+	case "post":
+		var cl *Clause
+		for i, en := range c.Ensures {
+			if "post:"+clauseLabel(en, i) == vc.Name {
+				cl = en
+			}
+		}
+		if cl == nil {
+			return &ReplayResult{Why: "clause not found"}
+		}
+		gs := &goSpec{g: g, params: params, nres: nres, ok: true}
+		ex := gs.expr(cl.Expr)
+		if !gs.ok {
+			return &ReplayResult{Why: "postcondition uses constructs that have no executable form"}
+		}
+		body = append(body, gs.olds...)
+		check = fmt.Sprintf("if !(%s) { fmt.Println(\"QEDVC-REPLAY: POST-VIOLATED\") } else { fmt.Println(\"QEDVC-REPLAY: post holds\") }", ex)
+	default:
+		return &ReplayResult{Why: "obligation kind " + vc.Kind + " has no replay"}
+	}
+	if nres > 0 {
+		body = append(body, strings.Join(resVars, ", ")+" := "+call)
+		for _, r := range resVars {
+			body = append(body, "_ = "+r)
+		}
+	} else {
+		body = append(body, call)
+	}
+	if check != "" {
+		body = append(body, check)
+	}
+	body = append(body, `fmt.Println("QEDVC-REPLAY: returned normally")`)
+	var src strings.Builder
+	fmt.Fprintf(&src, "package %s\n\nimport (\n", fn.Pkg.Pkg.Name())
+	var imps []string
+	for p := range g.imports {
+		imps = append(imps, p)
+	}
+	sort.Strings(imps)
+	for _, p := range imps {
+		fmt.Fprintf(&src, "\t%s %q\n", g.imports[p], p)
+	}
+	fmt.Fprintf(&src, ")\n\n// generated by qedvc from the solver model of obligation\n//   %s#%s\nfunc TestQedvcReplay(t *testing.T) {\n", vc.Func, vc.Name)
+	fmt.Fprintf(&src, "\tdefer func() {\n\t\tif r := recover(); r != nil {\n\t\t\tfmt.Println(\"QEDVC-REPLAY: PANIC:\", r)\n\t\t}\n\t}()\n")
+	for _, l := range g.pre {
+		fmt.Fprintf(&src, "\t%s\n", l)
+	}
+	for _, l := range body {
+		fmt.Fprintf(&src, "\t%s\n", l)
+	}
+	fmt.Fprintf(&src, "}\n")
+	rr := runReplayTest(eng, fn.Pkg.Pkg.Path(), src.String(), scratch)
+	switch vc.Kind {
+	case "panic", "pre":
+		rr.Confirmed = strings.Contains(rr.Output, "QEDVC-REPLAY: PANIC")
+	case "post":
+		rr.Confirmed = strings.Contains(rr.Output, "QEDVC-REPLAY: POST-VIOLATED")
+	}
+	return rr
+}
+
+var replayCounter int
+
+// runReplayTest injects src as <pkg>/qedvc_replay_test.go via -overlay and runs it.
+func runReplayTest(eng *Engine, pkgPath, src, scratch string) *ReplayResult {
+	replayCounter++
+	dir := filepath.Join(scratch, fmt.Sprintf("replay%d", replayCounter))
+	os.MkdirAll(dir, 0o755)
+	rel := strings.TrimPrefix(strings.TrimPrefix(pkgPath, modPath), "/")
+	pkgDir := filepath.Join(repoDir, rel)
+	ov := map[string][]byte{}
+	for k, v := range eng.prog.Overlay {
+		ov[k] = v
+	}
+	// blank the package's own tests (most import the RocksDB test helper)
+	ents, _ := os.ReadDir(pkgDir)
+	pkgName := filepath.Base(pkgDir)
+	if p := eng.prog.Pkgs[pkgPath]; p != nil {
+		pkgName = p.Name
+	}
+	for _, e := range ents {
+		if strings.HasSuffix(e.Name(), "_test.go") {
+			ov[filepath.Join(pkgDir, e.Name())] = []byte("package " + pkgName + "\n")
+		}
+	}
+	ov[filepath.Join(pkgDir, "qedvc_replay_test.go")] = []byte(src)
+	ovPath, err := WriteOverlayJSON(dir, ov)
+	if err != nil {
+		return &ReplayResult{Why: err.Error(), TestSrc: src}
+	}
+	args := []string{"test", "-overlay", ovPath, "-vet=off", "-count=1", "-timeout", "60s", "-run", "^TestQedvcReplay$", "-v", "./" + rel}
+	ctx, cancel := context.WithTimeout(context.Background(), 300*time.Second)
+	defer cancel()
+	cmd := exec.CommandContext(ctx, "go", args...)
+	cmd.Dir = repoDir
+	cmd.Env = append(os.Environ(), "GOFLAGS=-mod=mod", "GOPROXY=off", "GOSUMDB=off", "GOTOOLCHAIN=local", "CGO_ENABLED=1")
+	var out bytes.Buffer
+	cmd.Stdout = &out
+	cmd.Stderr = &out
+	_ = cmd.Run()
+	return &ReplayResult{Cmd: "cd " + repoDir + " && go " + strings.Join(args, " "), TestSrc: src, Output: truncate(out.String(), 8000)}
+}
+
+var _ = json.Marshal
+
+// ---------------------------------------------------------------------------
+// Replay drivers: for obligations whose counterexample depends on an
+// abstracted callee returning a particular value (e.g. "the hyper proof
+// verifies"), a hand-written driver under /verif/replay/drivers builds a
+// genuine log with the REAL code and then imposes the model's scalar fields.
+// Placeholders: MODEL_BOOL("path"), MODEL_U64("path"), MODEL_I64("path"), MODEL_LEN("path").
+
+func driverFile(cfg checkCfg, vc *VC) string {
+	safe := strings.NewReplacer("/", "_", " ", "_", "*", "", "(", "", ")", "", "#", "--", ":", "-", "$", "-", "@", "-at-").Replace(vc.Func + "#" + vc.Name)
+	return filepath.Join(cfg.VerifDir, "replay", "drivers", safe+".go.txt")
+}
+
+func replayWithDriver(eng *Engine, vc *VC, m *model, cfg checkCfg, scratch string, fn *ssa.Function) *ReplayResult {
+	b, err := os.ReadFile(driverFile(cfg, vc))
+	if err != nil {
+		return nil
+	}
+	src := string(b)
+	subst := func(kind string, conv func(n *sx) (string, bool)) {
+		for {
+			i := strings.Index(src, kind+"(\"")
+			if i < 0 {
+				return
+			}
+			j := strings.Index(src[i:], "\")")
+			if j < 0 {
+				return
+			}
+			name := src[i+len(kind)+2 : i+j]
+			val := "0"
+			if kind == "MODEL_BOOL" {
+				val = "false"
+			}
+			if n := m.vals[name]; n != nil {
+				if v, ok := conv(n); ok {
+					val = v
+				}
+			}
+			src = src[:i] + val + src[i+j+2:]
+		}
+	}
+	subst("MODEL_BOOL", func(n *sx) (string, bool) { return n.String(), n.atom == "true" || n.atom == "false" })
+	subst("MODEL_U64", func(n *sx) (string, bool) {
+		v, ok := bvValue(n)
+		if !ok {
+			return "", false
+		}
+		return "uint64(" + v.String() + ")", true
+	})
+	subst("MODEL_I64", func(n *sx) (string, bool) {
+		v, ok := bvValue(n)
+		if !ok {
+			return "", false
+		}
+		if v.Bit(63) == 1 {
+			v = new(big.Int).Sub(v, new(big.Int).Lsh(big.NewInt(1), 64))
+		}
+		return "int64(" + v.String() + ")", true
+	})
+	rr := runReplayTest(eng, fn.Pkg.Pkg.Path(), src, scratch)
+	rr.Confirmed = strings.Contains(rr.Output, "QEDVC-REPLAY: POST-VIOLATED") || strings.Contains(rr.Output, "QEDVC-REPLAY: PANIC")
+	rr.Why = "driver " + driverFile(cfg, vc)
+	return rr
 }
